@@ -33,6 +33,7 @@ def install_engine_guards():
         pass
     _concrete_dict_copies()
     quiet_logging()
+    snapshot_agent_state()
 
 
 def _concrete_dict_copies():
@@ -77,11 +78,69 @@ def quiet_logging():
         setattr(dl, n, _noop)
 
 
+_PRISTINE = {}
+
+
+def _agent_level_containers():
+    """(key, container) for every mutable container held at module or class level in deep.* (state that outlives a path)."""
+    import collections
+    for name, mod in list(sys.modules.items()):
+        if not (name == "deep" or name.startswith("deep.")) or mod is None:
+            continue
+        for attr, val in list(vars(mod).items()):
+            if attr.startswith("__"):
+                continue
+            if isinstance(val, (list, dict, set, collections.deque)):
+                yield "%s.%s" % (name, attr), val
+            elif isinstance(val, type) and getattr(val, "__module__", "") == name:
+                for a2, v2 in list(vars(val).items()):
+                    if isinstance(v2, (list, dict, set, collections.deque)):
+                        yield "%s.%s.%s" % (name, attr, a2), v2
+
+
+def snapshot_agent_state():
+    """Import every deep.* module and remember the import-time content of its module- and class-level containers."""
+    import importlib
+    import pkgutil
+    import deep
+    for m in pkgutil.walk_packages(deep.__path__, "deep."):
+        try:
+            importlib.import_module(m.name)
+        except BaseException:  # noqa  (optional integrations whose dependency is not installed)
+            pass
+    for key, cont in _agent_level_containers():
+        _PRISTINE[key] = type(cont)(cont)
+
+
+def _restore_agent_state():
+    """Every path starts from the import-time agent: whatever a path left in class-/module-level containers (caches, stores)
+    is removed, so paths stay independent (the engine requires determinism) and leaked state shows WITHIN a path only."""
+    for key, cont in _agent_level_containers():
+        init = _PRISTINE.get(key)
+        if init is None or len(cont) == len(init) and cont == init:
+            continue
+        cont.clear()
+        if isinstance(cont, dict):
+            cont.update(init)
+        elif isinstance(cont, set):
+            cont.update(init)
+        else:
+            cont.extend(init)
+
+
 def begin_path():
     """Call at the start of every harness execution: reset per-path state."""
     COUNT["paths"] += 1
     REACH["flag"] = False
     del _CF[:]
+    if _PRISTINE:
+        try:
+            from crosshair.tracers import NoTracing
+        except ImportError:
+            _restore_agent_state()
+        else:
+            with NoTracing():
+                _restore_agent_state()
     from deep.thread_local import ThreadLocal
     ThreadLocal._ThreadLocal__store.clear()
 
